@@ -157,16 +157,22 @@ impl Drop for Hooked {
 }
 impl Serialize for Hooked {
     fn serialize<Sr: Serializer>(&self, s: Sr) -> Result<Sr::Ok, Sr::Error> {
+        let id = self.id;
         let mut t = s.serialize_tuple(3)?;
-        t.serialize_element(&self.id)?;
+        t.serialize_element(&id)?;
         // between two fields: whatever the hook does (a store into the container being serialized)
         let h = HOOK.with(|h| h.borrow_mut().take());
         if let Some(h) = h {
             h();
         }
-        let destroyed = if self.id == 1 { DROPPED.load(std::sync::atomic::Ordering::SeqCst) } else { 0 };
+        // `self` must not be looked at again if it has been destroyed meanwhile
+        let destroyed = if id == 1 { DROPPED.load(std::sync::atomic::Ordering::SeqCst) } else { 0 };
         t.serialize_element(&destroyed)?;
-        t.serialize_element(&self.tag)?;
+        if destroyed == 0 {
+            t.serialize_element(&self.tag)?;
+        } else {
+            t.serialize_element("<destroyed while being serialized>")?;
+        }
         t.end()
     }
 }
